@@ -616,6 +616,10 @@ class Workspace(AbstractContextManager):
         """
         for child in children:
             if isinstance(child, PropertyGroup):
+                # stored under its own parent: not concerned by a request made to another
+                if child.parent is not parent:
+                    continue
+
                 self._io_call(
                     H5Writer.add_or_update_property_group, child, remove=True, mode="r+"
                 )
